@@ -40,8 +40,24 @@ def plans_for(tier, rng):
     finals += [{"kind": "token_xor", "fill": v} for v in (0, 255)]
     finals += [{"kind": "token_xor", "xor": [[16 + i, 1 << (i % 8)], [17 + 2 * i, 1 << (i % 8)]]} for i in range(0, 120, 8 if tier == "quick" else 1)]
     finals += [{"kind": "token_xor", "xor": [[12, 1], [4 + i, 1]]} for i in range(8)]
+    # the CHALLENGE may leave out options the client asked for; whatever it selects, only a server knowing the password
+    # can prove the key: forgery attempts under weakened option sets (no extended session security, no key exchange,
+    # no 128-bit, no sign / seal)
+    weak = []
+    # (the key-exchange option is left alone: without it MS-NLMP derives the session key differently, which is C15's
+    # business; the client under test always exchanges a key)
+    for name, clear in (("noess", 0x00080000), ("no128", 0x20000000), ("nosign", 0x00000010), ("noseal", 0x00000020), ("noess_no128", 0x20080000)):
+        weak.append(({"kind": "forge_noess"}, name, 0xE28A8235 & ~clear))
+        weak.append(({"kind": "offset", "k": 2}, name, 0xE28A8235 & ~clear))
+        weak.append(({"kind": "other_cert", "other": "leaf2"}, name, 0xE28A8235 & ~clear))
     plans = []
     k = 0
+    for (f, name, flags) in weak:
+        for ci in (0, 3, 5):
+            p = base_plan(cfgs, ci, "leaf", f)
+            p["id"] = "weak-%s-%s-%d" % (name, f["kind"], ci)
+            p["srv"]["ntlm_flags"] = flags
+            plans.append(p)
     for f in finals:
         for ident in idents:
             if f.get("kind") == "other_cert" and f["other"] == ident:
